@@ -1,13 +1,13 @@
 CONSTANTS
   STs = {"unary", "client", "server", "half", "full"}
   MaxReqs = 2
-  MaxResp = 2
+  MaxResp = 3
   ReqHdrNames = {"none", "multi"}
-  HdrNames = {"none", "rep"}
-  ErrNames = {"none", "code", "full"}
+  HdrNames = {"none", "rep", "bin"}
+  ErrNames = {"none", "code", "msg", "full"}
   DataVariants = {"plain", "e1"}
   Decoys = {"none", "both"}
   WFOnly = TRUE
 SPECIFICATION Spec
 INVARIANTS TypeOK Agrees ThreeWayInv ThreeWayDecl Progress OrderFull OrderHalf OneInFlight Unread
-PROPERTY Termination
+PROPERTIES Termination Monotone NoReceiveAfterEnd
